@@ -166,6 +166,25 @@ def load_known(pid):
 _built = set()
 
 
+def cargo_env():
+    """Environment for cargo that does not depend on rustup's per-user default being configured: the toolchain the
+    repository builds with in this sandbox is named explicitly, and CARGO_HOME / RUSTUP_HOME point at the
+    pre-installed registry cache and toolchains when the caller's HOME does not."""
+    env = dict(os.environ, CARGO_NET_OFFLINE="true")
+    for var, path in (("RUSTUP_HOME", "/root/.rustup"), ("CARGO_HOME", "/root/.cargo")):
+        if var not in env and os.path.isdir(path):
+            env[var] = path
+    tc = "stable-x86_64-unknown-linux-gnu"
+    tcdir = os.path.join(env.get("RUSTUP_HOME", os.path.expanduser("~/.rustup")), "toolchains", tc)
+    if "RUSTUP_TOOLCHAIN" not in env and os.path.isdir(tcdir):
+        env["RUSTUP_TOOLCHAIN"] = tc
+        env["PATH"] = os.path.join(tcdir, "bin") + os.pathsep + env.get("PATH", "")
+    cbin = os.path.join(env.get("CARGO_HOME", ""), "bin")
+    if os.path.isdir(cbin) and cbin not in env.get("PATH", ""):
+        env["PATH"] = env.get("PATH", "") + os.pathsep + cbin
+    return env
+
+
 def build_harness(which="main", release=False, bins=None, features=None, target=None):
     """cargo build of the harness (path dependency on /repo => rebuilt from its working tree).
     bins: list of binary names to build (default: all); features/target: cargo features and a separate
@@ -188,7 +207,7 @@ def build_harness(which="main", release=False, bins=None, features=None, target=
             cmd += ["--bin", b]
     else:
         cmd += ["--bins"]
-    env = dict(os.environ, CARGO_NET_OFFLINE="true")
+    env = cargo_env()
     t = time.time()
     r = subprocess.run(cmd, cwd=d, env=env, stdout=subprocess.PIPE, stderr=subprocess.STDOUT, text=True)
     if r.returncode != 0:
